@@ -5,19 +5,21 @@ Model of the DISPATCH LOOP of `sessionChecker.Start` (pkg/upstream/healthcheck/s
 
 `Gen.HealthDispatch` regenerates, for every branch of the loop's select, the ordered list of actions the loop goroutine
 performs (stop the check-timeout timer, stop the interval timer, HandleSuccess/HandleFailure, advance checkID, arm the
-interval timer).  This file interprets such a program against an environment made of
+interval timer), whether the timeout case compares the received id with the awaited one (`timeoutGuarded`) and whether the
+value sent on `c.timeout` is the id the arming `OnCheck` read (`timeoutCarriesID`).  This file interprets such a program
+against an environment made of
 
 * the interval timer (`armed`): when it fires, `OnCheck` runs in its own goroutine: it reads `checkID`, stops the previous
   timeout timer, arms a new one (tagged here with the id it read) and calls `CheckHealth` (the check is `inflight`);
-* the timeout timer (`tmo`): it can FIRE at any moment while it is armed and not stopped — in particular between any two
-  actions of the loop goroutine (a result handler = event log + every callback may run arbitrarily long).  `c.timeout` is
-  unbuffered: when the loop is blocked in its select the timeout is received at once; otherwise the timer's goroutine
-  stays parked on the channel (`parked`) and the loop finds it at its next select.  `Stop()` after the timer fired does not
-  take the parked send back;
+* the timeout timer (`tmo`): it can FIRE at any moment while it is armed and not stopped — between ANY two steps of the loop
+  goroutine, in particular between the receive of an answer and the `c.checkTimeout.Stop()` that follows it.  `c.timeout`
+  is unbuffered: the fired timer's goroutine is parked on the channel (`parked`, FIFO like Go's send queue) until the loop's
+  select receives from it (`recvTimeout`, its own step: with an answer ready as well the select may take either).
+  `Stop()` after the timer fired does not take the parked send back;
 * answers: an `OnCheck` goroutine whose `CheckHealth` returned hands `(id, healthy)` to the loop when the loop is in its select.
 
-The loop goroutine advances by `act` events, one action each: everything else can happen between two of them.  Granularity
-(assumption, see props/C16.json): the receive of the select and the FIRST action of the selected branch are one step.
+The loop goroutine advances by `answer` / `recvTimeout` (the select hands an event to a branch: NO action of the branch is
+part of that step) and `act` events, one action each: everything else can happen between any two of them.
 Every handler call is logged with the id of the check it is accounted to: the stamp of the answer, or the tag of the
 timeout timer whose expiry the loop consumed.
 -/
@@ -31,17 +33,24 @@ structure Prog where
   onExpired : List Act
   onTimeout : List Act
   onExit : List Act
+  /-- the timeout case accepts an expiry only when the id it carries is the awaited one (otherwise `onStale`) -/
+  guard : Bool
+  onStale : List Act
   deriving DecidableEq, Repr
 
 /-- the program of the current source -/
 def genProg : Prog :=
   ⟨Gen.HealthDispatch.prologue, Gen.HealthDispatch.onResp, Gen.HealthDispatch.onExpired, Gen.HealthDispatch.onTimeout,
-   Gen.HealthDispatch.onExit⟩
+   Gen.HealthDispatch.onExit, Gen.HealthDispatch.timeoutGuarded && Gen.HealthDispatch.timeoutCarriesID,
+   Gen.HealthDispatch.onStaleTimeout⟩
 
 /-- the program the theorems are proved about (`genProg_real` ties it to the regenerated one) -/
 def realProg : Prog :=
   ⟨[.advance, .armCheck], [.stopTimeout, .handle, .advance, .armCheck], [],
-   [.stopCheck, .sessionOnTimeout, .handleNet, .advance, .armCheck], [.stopCheck, .stopTimeout]⟩
+   [.stopCheck, .sessionOnTimeout, .handleNet, .advance, .armCheck], [.stopCheck, .stopTimeout], true, []⟩
+
+/-- the program before the repair: `case <-c.timeout:` takes ANY expiry for the timeout of the awaited check -/
+def unguardedProg : Prog := { realProg with guard := false }
 
 /-- the timeout timer of an answered check stopped only after the handlers returned -/
 def lateStopProg : Prog := { realProg with onResp := [.handle, .stopTimeout, .advance, .armCheck] }
@@ -96,11 +105,9 @@ def actStep (p : Prog) (s : D) : D :=
   | [] => s
   | a :: rest => finish p { perform s a with todo := rest }
 
-/-- the select hands an event to a branch; the first action is part of the step -/
+/-- the select hands an event to a branch: the loop goroutine stands before the branch's first action -/
 def enter (p : Prog) (s : D) (branch : List Act) (cur : Nat × Result) : D :=
-  match branch with
-  | [] => finish p { s with todo := [], cur := cur }
-  | a :: rest => finish p { perform { s with cur := cur } a with todo := rest }
+  finish p { s with todo := branch, cur := cur }
 
 def idle (s : D) : Bool := s.todo.isEmpty
 
@@ -114,14 +121,15 @@ def step (p : Prog) (s : D) (ev : Ev) : D :=
   | .fireTimeout =>
     match s.tmo with
     | none => s
-    | some k =>
-      if idle s then enter p { s with tmo := none, outcomes := (k, .timeout) :: s.outcomes } p.onTimeout (k, .timeout)
-      else { s with tmo := none, parked := s.parked ++ [k] }
+    | some k => { s with tmo := none, parked := s.parked ++ [k] }
   | .recvTimeout =>
     match s.parked with
     | [] => s
     | k :: rest =>
-      if idle s then enter p { s with parked := rest, outcomes := (k, .timeout) :: s.outcomes } p.onTimeout (k, .timeout)
+      if idle s then
+        if !p.guard || k = s.currentID then
+          enter p { s with parked := rest, outcomes := (k, .timeout) :: s.outcomes } p.onTimeout (k, .timeout)
+        else enter p { s with parked := rest } p.onStale (k, .timeout)
       else s
   | .answer id h =>
     if idle s && s.inflight.contains id then
